@@ -957,12 +957,13 @@ type coupleCase struct {
 	newRoot bool
 	tree    []int
 	fifo    bool
+	late    bool // the last node of the tree is started (by the tracer obtained earlier) after the provider's Shutdown
 }
 
 func (c *coupleCase) describe() map[string]any {
 	m := map[string]any{
 		"parent_context": c.par.String(), "with_new_root": c.newRoot, "tree_parent_vector": fmt.Sprint(c.tree),
-		"end_order":  map[bool]string{false: "children first", true: "creation order"}[c.fifo],
+		"end_order":  map[bool]string{false: "children first", true: "creation order"}[c.fifo] + map[bool]string{false: "", true: "; the last node is started after TracerProvider.Shutdown"}[c.late],
 		"id_variant": []string{"scripted ids, key below 2^62", "scripted ids, key at or above 2^62", "default random source"}[c.variant],
 	}
 	if c.env != nil {
@@ -1022,7 +1023,7 @@ func execCouple(c *coupleCase, spec *sspec, fromEnv bool) *execution {
 		tr := tp.Tracer("c09")
 		ctxs := make([]context.Context, n)
 		spans := make([]trace.Span, n)
-		for i := 0; i < n; i++ {
+		start := func(i int) {
 			pc := pctx
 			var so []trace.SpanStartOption
 			if i > 0 {
@@ -1033,17 +1034,29 @@ func execCouple(c *coupleCase, spec *sspec, fromEnv bool) *execution {
 			ctxs[i], spans[i] = tr.Start(pc, fmt.Sprintf("n%d", i), so...)
 			x.obs[i] = nodeObs{sc: spans[i].SpanContext(), recording: spans[i].IsRecording()}
 		}
+		first := n
+		if c.late {
+			first = n - 1
+		}
+		for i := 0; i < first; i++ {
+			start(i)
+		}
 		if c.fifo {
-			for i := 0; i < n; i++ {
+			for i := 0; i < first; i++ {
 				spans[i].End()
 			}
 		} else {
-			for i := n - 1; i >= 0; i-- {
+			for i := first - 1; i >= 0; i-- {
 				spans[i].End()
 			}
 		}
 		x.flushErr = tp.ForceFlush(context.Background())
 		x.shutErr = tp.Shutdown(context.Background())
+		if c.late {
+			// ids, flags and the sampler's say do not depend on whether anybody still listens
+			start(n - 1)
+			spans[n-1].End()
+		}
 	}()
 	if sp != nil {
 		x.calls = sp.calls
@@ -1205,7 +1218,7 @@ func judgeCouple(r *enum.R, c *coupleCase, spec *sspec, x *execution) {
 			r.FailHere("tracestate|span does not carry the sampler's answer|answer is "+tsRel(ansTS), node(), "span %d: tracestate %q, the sampler's answer carries %q (parent's %q)", i, got, ansTS, p.ts)
 		}
 		if exportsJudged && uses[sc.SpanID()] == 1 {
-			want := ansDec == sdktrace.RecordAndSample
+			want := ansDec == sdktrace.RecordAndSample && !(c.late && i == n-1) // nothing is exported after Shutdown
 			if (o.nS > 0) != want {
 				r.FailHere("exported-iff-sampled|simple processor|answer="+decName(ansDec), node(), "span %d: sampler answer %s, exported %d times through the simple span processor", i, decName(ansDec), o.nS)
 			}
@@ -1355,7 +1368,8 @@ func couple(r *enum.R, samplers []*sspec, envs []*envCfg, withRandom bool) {
 						variants = []int{idLow, idRandom}
 					}
 					for _, v := range variants {
-						for _, fifo := range []bool{false, true} {
+						for mode := 0; mode < 3; mode++ {
+							fifo, late := mode >= 1, mode == 2
 							if fifo && len(tree) == 1 {
 								continue
 							}
@@ -1365,7 +1379,7 @@ func couple(r *enum.R, samplers []*sspec, envs []*envCfg, withRandom bool) {
 							if !r.Want() {
 								continue
 							}
-							c := &coupleCase{s: it.s, env: it.e, variant: v, par: par, newRoot: newRoot, tree: tree, fifo: fifo}
+							c := &coupleCase{s: it.s, env: it.e, variant: v, par: par, newRoot: newRoot, tree: tree, fifo: fifo, late: late}
 							runCouple(r, c)
 							r.Sample(func() any { return c.describe() })
 						}
